@@ -61,6 +61,24 @@ def main(argv=None) -> int:
     ap.add_argument("--selftest", action="store_true")
     ap.add_argument("--keep-work", action="store_true")
     a = ap.parse_args(argv)
+    # every scratch directory of this run (harness, pool workers, TLC's unpacked modules) lives under one root
+    # outside /repo and /verif that is removed when the run ends, whatever happened in between
+    import shutil
+    import tempfile
+
+    own_root = None
+    if not os.environ.get("VERIF_SCRATCH"):
+        own_root = tempfile.mkdtemp(prefix="vf-run-")
+        os.environ["VERIF_SCRATCH"] = own_root
+    try:
+        return _main(a, ap)
+    finally:
+        if own_root:
+            os.chdir("/")
+            shutil.rmtree(own_root, ignore_errors=True)
+
+
+def _main(a, ap) -> int:
     try:
         if a.setup:
             return setup()
